@@ -84,7 +84,8 @@ def plan(tier):
                "flat", "conserve_qn:True", "conserve_qn:False", "swap_jw:True", "swap_jw:False", "model:qc", "swap_jw:without-quantum-numbers", "qc:complex-hopping",
                "model:spin", "model:vibronic", "spelling:library", "spelling:sigma", "ofs:ofs_s", "ofs:ofs_d",
                "ofs:ofs_ds", "ofs:ofs_debug", "fcidump:4fold", "fcidump:8fold", "swapped-in-optimisation",
-               "swapped-in-evolution", "schedule:truncating-sweeps-first", "norb:1", "norb:2", "norb:3"]
+               "swapped-in-evolution", "schedule:truncating-sweeps-first", "norb:1", "norb:2", "norb:3", "rdm",
+               "rdm-sector:open-shell", "rdm-sector:closed-shell"]
     if tier == "quick":
         return {"ncases": 640, "min_nontrivial": 250, "case_time_limit": 240, "required_classes": classes,
                 "required_counters": {"oracle": 5000, "walk_swaps": 300, "swaps_opt": 100, "swaps_evolve": 50,
@@ -546,6 +547,66 @@ def case_static(ctx):
               scale=scale)
     if do_fcidump:
         fcidump_checks(ctx, h, eri, ref, scale)
+    if norb <= 3 and rng.random() < 0.4:
+        rdm_checks(ctx, h, eri, sh, aseri, norb, ref)
+
+
+def rdm_checks(ctx, h, eri, sh, aseri, norb, ref):
+    """The spin-traced reduced density matrices of the PySCF interface (built from the same ladder operators and the same
+    normal-ordering simplification as the Hamiltonian) against their documented definitions on the dense vector:
+    1RDM[p,q] = sum_s <p_s^+ q_s>, 2RDM[p,q,r,s] = sum_st <p_s^+ r_t^+ s_t q_s>, E = h.1RDM + 1/2 (pq|rs).2RDM."""
+    from renormalizer.model import Model, h_qc
+    from renormalizer.mps import Mps
+    from renormalizer.mps.gs import DmrgFCISolver
+    from rv import env, states
+    rng = ctx.rng
+    nso = 2 * norb
+    basis, terms = ctx.lib(h_qc.qc_model, sh, aseri, what="qc_model")
+    model = Model(basis, terms)
+    na, nb = int(rng.integers(0, norb + 1)), int(rng.integers(0, norb + 1))
+    if rng.random() < 0.35:
+        nb = na
+    if na + nb == 0:
+        na = nb = 1
+    env.reseed_global(rng)
+    mps = ctx.lib(Mps.random, model, [na, nb], int(rng.integers(2, 9)), 1.0, what="Mps.random", promised=False)
+    if float(np.linalg.norm(states.dense_of(mps))) < 1e-8:
+        return
+    mps.normalize("mps_and_coeff")
+    psi = np.asarray(states.dense_of(mps)).ravel()
+    psi = psi / np.linalg.norm(psi)
+    ctx.cls("rdm", f"rdm-sector:{'closed' if na == nb else 'open'}-shell")
+    solver = DmrgFCISolver()
+    solver.nsorb = nso
+    solver.mps = mps
+    rdm1 = np.asarray(ctx.lib(solver.make_rdm1, None, norb, (na, nb), what="DmrgFCISolver.make_rdm1"))
+    rdm2 = np.asarray(ctx.lib(solver.make_rdm2, mps, norb, (na, nb), what="DmrgFCISolver.make_rdm2"))
+    a, ad = ladder(nso)
+    apsi = [m @ psi for m in a]
+    ref1 = np.zeros((norb, norb))
+    for p, q in itertools.product(range(norb), repeat=2):
+        ref1[p, q] = sum(float(np.real(np.vdot(apsi[2 * p + s], apsi[2 * q + s]))) for s in range(2))
+    ref2 = np.zeros((norb,) * 4)
+    pair = {}
+    for x, y in itertools.product(range(nso), repeat=2):
+        pair[(x, y)] = a[x] @ apsi[y]              # a_x a_y |psi>
+    for p, q, r, s_ in itertools.product(range(norb), repeat=4):
+        v = 0.0
+        for s in range(2):
+            for t in range(2):
+                # <p_s^+ r_t^+ s_t q_s> = (a_r,t a_p,s psi)^+ (a_s,t a_q,s psi)
+                v += float(np.real(np.vdot(pair[(2 * r + t, 2 * p + s)], pair[(2 * s_ + t, 2 * q + s)])))
+        ref2[p, q, r, s_] = v
+    ctx.count("oracle", 4)
+    ctx.count("rdm_checks")
+    ctx.close(rdm1, ref1, 1e-9, "rdm|make_rdm1|differs-from-spin-traced-definition", scale=max(1.0, float(na + nb)))
+    ctx.close(rdm2, ref2, 1e-9, "rdm|make_rdm2|differs-from-spin-traced-definition", scale=max(1.0, float((na + nb) ** 2)))
+    ctx.close(float(np.trace(rdm1)), float(na + nb), 1e-9, "rdm|make_rdm1|trace-is-not-the-electron-number", scale=max(1.0, na + nb))
+    e_rdm = float(np.einsum("pq,pq->", h, rdm1) + 0.5 * np.einsum("pqrs,pqrs->", eri, rdm2))
+    e_ref = float(np.real(np.vdot(psi, ref @ psi)))
+    ctx.close(e_rdm, e_ref, 1e-9, "rdm|energy-from-density-matrices-differs-from-<H>", scale=max(1.0, float(np.linalg.norm(ref, 2))))
+    if norb >= 2:
+        ctx.nontrivial({"family": "rdm", "sector": [na, nb], **int_key(h, eri)})
 
 
 def write_fcidump(fname, h, eri, nuc, style):
